@@ -130,10 +130,14 @@ def generate(extra_generators=()):
 
 def input_hash():
     """Hash of everything a Kani verdict depends on: repo sources, harness sources, driver."""
-    return tree_hash(
+    return CACHE_VERSION + tree_hash(
         [os.path.join(REPO, "crates"), os.path.join(REPO, "Cargo.toml"), os.path.join(REPO, "Cargo.lock"),
-         os.path.join(GEN, "kani"), os.path.join(VERIF, "lib")],
-        (".rs", ".toml", ".lock", ".py"))
+         os.path.join(GEN, "kani")],
+        (".rs", ".toml", ".lock", ".in"))
+
+
+# bump when the way verdicts are derived from Kani output changes (classify / parse_output / kani_cmd)
+CACHE_VERSION = "v3:"
 
 
 # ------------------------------------------------------------------------------------------------
@@ -282,7 +286,9 @@ def run_units(units, tier, jobs=16, use_cache=True, log=None):
             tmo = max(tmo, 900)
         if os.environ.get("VERIF_TIMEOUT_CAP"):
             tmo = min(tmo, int(os.environ["VERIF_TIMEOUT_CAP"]))
-        cmd = kani_cmd(crate, [u.fq for u, _ in items], tmo, jobs, flags)
+        # the LSP harnesses build Strings from symbolic chars and need ~15 GB each: run few at a time
+        group_jobs = min(jobs, 3) if crate == "trust_lsp" else jobs
+        cmd = kani_cmd(crate, [u.fq for u, _ in items], tmo, group_jobs, flags)
         # overall guard: every harness could run sequentially in the worst case, cap generously
         overall = 900 + tmo * (1 + len(items) // max(1, jobs // 2))
         t0 = time.time()
